@@ -109,7 +109,14 @@ func registerCrypto(e *Engine) {
 	e.Register(e.ModulePath+"/crypto.Keccak256", func(fr *frame, a []value) value {
 		d := sha3.NewLegacyKeccak256()
 		for _, part := range a[0].([]value) {
-			d.Write(byteSlice(part, "Keccak256"))
+			if b, ok := bytesOfValue(part); ok {
+				d.Write(b)
+				continue
+			}
+			// boxed (RLP field box) or symbolic bytes: an injective-by-construction
+			// stand-in, the digest of the canonical rendering
+			h := sha256.Sum256([]byte("keccak:" + dumpValue(part)))
+			d.Write(h[:])
 		}
 		return concreteBytes(d.Sum(nil))
 	})
